@@ -9,7 +9,7 @@ import json
 from .. import common as C
 
 PROPS = {
-    "C03": ["theories/Props/C03.v"],
+    "C03": ["theories/Props/C03.v", "theories/Props/Compose.v"],
     "C04": ["theories/Props/C04.v"],
 }
 
